@@ -178,7 +178,7 @@ def segmentations(rng, n, bounds):
     return out
 
 
-def make_case(rng, role, msgs, bits="-", pre=0, ho=b"", nseg=None):
+def make_case(rng, role, msgs, bits="-", pre=0, ho=b"", nseg=None, enc=0):
     stream = b"".join(m.raw for m in msgs)
     bounds, p = [], 0
     for m in msgs:
@@ -211,8 +211,10 @@ def make_case(rng, role, msgs, bits="-", pre=0, ho=b"", nseg=None):
     segs = segmentations(rng, len(stream), bounds)
     if nseg:
         segs = segs[:nseg]
-    return "role=%s np=%d bits=%s pre=%d cu=1 xv=%s ho=%s stream=%s segs=%s" % (
-        role, 1 if role == "meta" else NP, bits, pre, xv, ho.hex() or "-", stream.hex() or "-", "/".join(segs))
+    if role == "meta":
+        enc = 0     # MSE towards a metadata download is not driven (the negotiation is C06's subject)
+    return "role=%s np=%d bits=%s pre=%d cu=1 xv=%s ho=%s enc=%d stream=%s segs=%s" % (
+        role, 1 if role == "meta" else NP, bits, pre, xv, ho.hex() or "-", enc, stream.hex() or "-", "/".join(segs))
 
 
 def hand_cases(rng):
@@ -238,6 +240,8 @@ def hand_cases(rng):
         # handover: the first 5 bytes after the handshake are a complete message that nothing follows
         out.append(make_case(rng, role, [M(msg(2), "int")], ho=msg(2)))
         out.append(make_case(rng, role, [M(msg(2), "int"), M(be32(0), "ka")], ho=msg(2)))
+        out.append(make_case(rng, role, [M(msg(2), "int")], ho=msg(2), enc=1))
+        out.append(make_case(rng, role, [M(msg(2), "int"), M(msg(4, be32(1)), "have"), M(msg(1), "unchoke")], ho=msg(2), enc=1))
         out.append(make_case(rng, role, [M(msg(4, be32(2)), "have"), M(msg(2), "int")], ho=msg(4, be32(2))[:5]))
     # request queue limit 2048 (+-1), unchoked
     reqs = [M(msg(6, be32(i % NP) + be32((i // NP) * 16) + be32(16)), "req") for i in range(2050)]
@@ -296,8 +300,10 @@ def gen(seed, tier):
         msgs.append(M(msg(4, be32(rng.randrange(NP))), "have-marker"))
         bits = "-" if rng.random() < 0.7 else "".join(rng.choice("01") for _ in range(NP - 1)) + "0"
         pre = 1 if rng.random() < 0.5 else 0
-        cases.append(make_case(rng, role, msgs, bits=bits, pre=pre))
+        enc = 1 if (k % 3 == 1) else 0
+        cases.append(make_case(rng, role, msgs, bits=bits, pre=pre, enc=enc))
         stats["grammar"] += 1
+        stats["encrypted"] = stats.get("encrypted", 0) + (1 if enc and role != "meta" else 0)
         stats["by_role"][role] = stats["by_role"].get(role, 0) + 1
         stats["by_mutation"][tag] = stats["by_mutation"].get(tag, 0) + 1
         ln = sum(len(m.raw) for m in msgs)
@@ -310,7 +316,7 @@ def gen(seed, tier):
         if rng.random() < 0.6 and n >= 5:
             # plausible length prefix and id so that the body is reached
             raw = be32(rng.choice([1, 5, 13, 3, 9, 2, 100])) + bytes([rng.choice([0, 1, 2, 3, 4, 6, 7, 8, 9, 20])]) + raw[5:]
-        cases.append(make_case(rng, role, [M(raw, "raw")], pre=rng.randrange(2)))
+        cases.append(make_case(rng, role, [M(raw, "raw")], pre=rng.randrange(2), enc=1 if k % 4 == 2 else 0))
         stats["raw"] += 1
     fc = free_cases(rng, n_free)
     stats["free"] = len(fc)
